@@ -120,6 +120,7 @@ Theorem dispatch : forall (cf : ccfg) (s : cstate) (c : ccall) (s' : cstate) (r 
   | CUnbind t opr =>
       has_auth (cc_auths c) opr = true /\ In t (bound s) /\
       bound s' = remove_first t (bound s) /\ mods s' = mods s /\ mlog s' = []
+  | CAdvance _ => mods s' = mods s /\ bound s' = bound s /\ mlog s' = []
   end.
 Proof.
   intros cf s c s' r H. apply cstep_ok in H. unfold cexec, cunit in H.
@@ -143,6 +144,7 @@ Proof.
   - destruct (ask_all_spec (cc_deny c) (mods (cclear s) HCanCreate) (MCanCreate to amt tok) (cclear s)) as (A & B & C & D).
     destruct (ask_all _ _ _ _) as [b s1]. cbn [fst snd] in *. injection H as <- <-. cbn in *.
     repeat split; auto. rewrite A. reflexivity.
+  - injection H as <- <-. cbn. auto.
 Qed.
 
 (* ------------------------------------------------------------------ *)
@@ -211,6 +213,7 @@ Proof.
   - destruct D as (_ & _ & _ & Hm & Hb). split; [rewrite Hm; exact HM|rewrite Hb; exact HB].
   - destruct D as (_ & _ & Hm & Hb). split; [rewrite Hm; exact HM|rewrite Hb; exact HB].
   - destruct D as (_ & _ & Hm & Hb). split; [rewrite Hm; exact HM|rewrite Hb; exact HB].
+  - destruct D as (Hm & Hb & _). split; [rewrite Hm; exact HM|rewrite Hb; exact HB].
 Qed.
 
 Lemma crun_preserves_CInv cf cs : forall s, CInv cf s -> CInv cf (crun cf s cs).
@@ -380,6 +383,10 @@ Proof.
   - destruct D as (A1 & A3 & A4 & A5). btrue.
     + rewrite A1, Hmo. unfold all_approve. cbn. apply Bool.eqb_reflx.
     + unfold cobserve. cbn [co_log]. rewrite A3, Hmo. apply eqb_list_refl. apply eqb_entry_refl.
+    + apply Hmods. intros h'. rewrite A4, Hmo. reflexivity.
+    + apply Hbounds. intros t'. rewrite A5. reflexivity.
+  - destruct D as (A4 & A5 & A6). btrue.
+    + unfold cobserve. cbn [co_log]. rewrite A6. reflexivity.
     + apply Hmods. intros h'. rewrite A4, Hmo. reflexivity.
     + apply Hbounds. intros t'. rewrite A5. reflexivity.
 Qed.
